@@ -59,10 +59,13 @@ pub fn run_passes(o: &mut Outcome, passes: &[Pass]) -> Witness {
     for pass in passes {
         let budget = pass.budget + carry;
         let t0 = Instant::now();
+        // under heavy machine load the budget may cut a level short: the hard minimum is two levels below the request,
+        // and it is executed whatever the clock says
+        let hard_min = pass.min_depth.min(pass.depth.saturating_sub(2)).max(1);
         let rep = if pass.dedup_extra > 0 && pass.prop.dedup {
-            explore_dedup(&pass.prop, pass.depth, pass.depth + pass.dedup_extra, t0 + budget, pass.dedup_budget, threads(), &merge_wit)
+            explore_dedup(&pass.prop, pass.depth, pass.depth + pass.dedup_extra, t0 + budget, pass.dedup_budget, threads(), &merge_wit, hard_min)
         } else {
-            explore(&pass.prop, pass.depth, t0 + budget, threads(), &merge_wit)
+            explore_min(&pass.prop, pass.depth, hard_min, t0 + budget, threads(), &merge_wit)
         };
         let ext = rep.completed_depth >= pass.depth && rep.exhaustive_wall > Duration::ZERO;
         carry = budget.saturating_sub(if ext { rep.exhaustive_wall } else { t0.elapsed() });
@@ -96,8 +99,6 @@ pub fn run_passes(o: &mut Outcome, passes: &[Pass]) -> Witness {
             "wall_s": rep.wall.as_secs_f64(),
             "witnesses": rep.stats.to_json(),
         }));
-        // under heavy machine load the budget may cut a level short: the hard minimum is two levels below the request
-        let hard_min = pass.min_depth.min(pass.depth.saturating_sub(2)).max(1);
         if rep.completed_depth < hard_min {
             o.machinery_errors.push(format!(
                 "pass {} completed only depth {} < minimum {}",
